@@ -80,6 +80,7 @@ func main() {
 	fmt.Printf("loaded %s: %d repo packages, %d packages total, %d source functions, go %s, grpc %s, whole-program=%v (%.1fs)\n",
 		*repo, len(p.Pkgs), len(p.All), len(p.Funcs), p.GoVersion, p.GrpcVer, whole, time.Since(start).Seconds())
 	rules.SetupRoles(p)
+	core.SetupInline(p)
 	kf, err := core.LoadKnown(filepath.Join(vd, "known_findings.json"))
 	if err != nil {
 		fmt.Fprintf(os.Stderr, "CHECK-ERROR: %v\n", err)
